@@ -379,6 +379,32 @@ pub unsafe fn give_terminal_to(gid: i32) -> bool {
     given
 }
 
+/// Text that an expansion produced is data: if an unquoted token now looks
+/// like an operator (redirection, pipe, background marker), tag it as quoted
+/// so that the later operator recognition leaves it alone.
+fn protect_produced_text(token: &mut types::Token) {
+    if !token.0.is_empty() {
+        return;
+    }
+    let t = &token.1;
+    if t.contains('>') || t == "|" || t == "&" || t == "<" || t == "<<<" {
+        token.0 = String::from("'");
+    }
+}
+
+/// Same, for a token of which only parts were produced: `produced_gt` tells
+/// whether one of the inserted values contains a `>` (a `>` the user typed,
+/// as in `echo $A>file`, still is a redirection).
+fn protect_partly_produced_text(token: &mut types::Token, produced_gt: bool) {
+    if !token.0.is_empty() {
+        return;
+    }
+    let t = &token.1;
+    if produced_gt || t == "|" || t == "&" || t == "<" || t == "<<<" {
+        token.0 = String::from("'");
+    }
+}
+
 fn needs_globbing(line: &str) -> bool {
     let re = Regex::new(r"\*+").expect("Invalid regex ptn");
     re.is_match(line)
@@ -447,15 +473,16 @@ pub fn expand_glob(tokens: &mut types::Tokens) {
         for (j, token) in result.iter().enumerate() {
             let sep = if token.contains(' ') { "\"" } else { "" };
             tokens.insert(*i + j, (sep.to_string(), token.clone()));
+            protect_produced_text(&mut tokens[*i + j]);
         }
     }
 }
 
 /// Expand the leftmost `$NAME`, `${NAME}`, `$?` or `$$` of `token`.
-/// Returns the text up to and including the inserted value, and the rest
-/// of the token (which has not been looked at yet); `None` if the token
-/// holds no such reference.
-fn expand_one_env(sh: &Shell, token: &str) -> Option<(String, String)> {
+/// Returns the literal text before the reference, the inserted value, and
+/// the rest of the token (which has not been looked at yet); `None` if the
+/// token holds no such reference.
+fn expand_one_env(sh: &Shell, token: &str) -> Option<(String, String, String)> {
     // do not combine these two into one: `\{?..\}?`,
     // otherwize `}` in `{print $NF}` would gone.
     let re1 = Regex::new(r"\$([A-Za-z0-9_]+|\$|\?)").unwrap();
@@ -477,7 +504,7 @@ fn expand_one_env(sh: &Shell, token: &str) -> Option<(String, String)> {
     let head = &token[..m.start()];
     let tail = &token[m.end()..];
     let key = &cap[1];
-    let mut result = String::from(head);
+    let mut result = String::new();
     if key == "?" {
         result.push_str(&sh.previous_status.to_string());
     } else if key == "$" {
@@ -490,7 +517,7 @@ fn expand_one_env(sh: &Shell, token: &str) -> Option<(String, String)> {
     } else if let Some(val) = sh.get_env(key) {
         result.push_str(&val);
     }
-    Some((result, tail.to_string()))
+    Some((head.to_string(), result, tail.to_string()))
 }
 
 fn need_expand_brace(line: &str) -> bool {
@@ -827,22 +854,28 @@ pub fn expand_env(sh: &Shell, tokens: &mut types::Tokens) {
         // final and is not scanned for references again.
         let mut _token = String::new();
         let mut rest = token.clone();
+        let mut produced_gt = false;
         while has_env_ref(&rest) {
             match expand_one_env(sh, &rest) {
-                Some((done, tail)) => {
-                    _token.push_str(&done);
+                Some((head, val, tail)) => {
+                    if val.contains('>') {
+                        produced_gt = true;
+                    }
+                    _token.push_str(&head);
+                    _token.push_str(&val);
                     rest = tail;
                 }
                 None => break,
             }
         }
         _token.push_str(&rest);
-        buff.push((idx, _token));
+        buff.push((idx, _token, produced_gt));
         idx += 1;
     }
 
-    for (i, text) in buff.iter().rev() {
+    for (i, text, produced_gt) in buff.iter().rev() {
         tokens[*i].1 = text.to_string();
+        protect_partly_produced_text(&mut tokens[*i], *produced_gt);
     }
 }
 
@@ -910,7 +943,7 @@ fn run_for_substitution(sh: &mut Shell, cmd: &str) -> String {
 
 fn do_command_substitution_for_dollar(sh: &mut Shell, tokens: &mut types::Tokens) {
     let mut idx: usize = 0;
-    let mut buff: HashMap<usize, String> = HashMap::new();
+    let mut buff: HashMap<usize, (String, bool)> = HashMap::new();
 
     for (sep, token) in tokens.iter() {
         if sep == "'" || sep == "\\" || !should_do_dollar_command_extension(token) {
@@ -922,21 +955,26 @@ fn do_command_substitution_for_dollar(sh: &mut Shell, tokens: &mut types::Tokens
         // is literal text and is not looked at again.
         let mut line = String::new();
         let mut rest = token.to_string();
+        let mut produced_gt = false;
         while let Some((start, end)) = find_dollar_cmd(&rest) {
             let cmd = rest[start + 2..end - 1].to_string();
             let output_txt = run_for_substitution(sh, &cmd);
+            if output_txt.contains('>') {
+                produced_gt = true;
+            }
             line.push_str(&rest[..start]);
             line.push_str(&output_txt);
             rest = rest[end..].to_string();
         }
         line.push_str(&rest);
 
-        buff.insert(idx, line.clone());
+        buff.insert(idx, (line.clone(), produced_gt));
         idx += 1;
     }
 
-    for (i, text) in buff.iter() {
+    for (i, (text, produced_gt)) in buff.iter() {
         tokens[*i].1 = text.to_string();
+        protect_partly_produced_text(&mut tokens[*i], *produced_gt);
     }
 }
 
@@ -994,6 +1032,7 @@ fn do_command_substitution_for_dot(sh: &mut Shell, tokens: &mut types::Tokens) {
 
     for (i, text) in buff.iter() {
         tokens[*i].1 = text.to_string();
+        protect_produced_text(&mut tokens[*i]);
     }
 }
 
